@@ -27,6 +27,7 @@ from pyvc.lib import c04_models as cm
 from pyvc.lib.c04_models import TT, DimInt, Mask, ONE, scan_dim, dim_eq
 from .common import registry, ceil_div, zmin, forall, implies, AND, OR, NOT
 from . import C09
+from . import C12
 
 LEVEL = "other"
 DP = "quantem.diffractive_imaging.direct_ptychography"
@@ -72,6 +73,8 @@ def make_registry():
     cm.install_crop(reg)
     for c in CONTRACTS:
         reg.add_contract(c)
+    for c in C12_GRADIENTS:         # value contracts of C12 (own registry); the typing of reconstruct interprets these functions inline
+        reg.contracts.pop(c.func, None)
     for c in (C_CURAB, C_CURROT):   # verified on their own AND interpreted inline inside reconstruct (its frame clause sees their effects)
         reg.contracts.pop(c.func, None)
     reg.contracts[C_ITER_USE.func] = C_ITER_USE   # at call sites: the statement; the body of __iter__ is verified below (C09.C_ITER)
@@ -232,7 +235,8 @@ def _build(cfg, stack=None):
     vb = Dataset3d.from_array(np.array(stack, dtype=np.float32), name="vbf", units=("index", "A", "A"), sampling=(1, ss[0], ss[1]))
     md = Dataset2d.from_array(mask, name="mask", units=("mrad", "mrad"), sampling=(ds[0], ds[1]))
     dp = M.DirectPtychography.from_virtual_bfs(
-        vb, md, energy=cfg.get("energy", 80e3), rotation_angle=cfg.get("rot", 0.0), aberration_coefs=dict(cfg.get("abers", {})),
+        vb, md, energy=cfg.get("energy", 80e3), rotation_angle=cfg.get("built_rot", cfg.get("rot", 0.0)),
+        aberration_coefs=dict(cfg.get("built_abers", cfg.get("abers", {}))),
         semiangle_cutoff=cfg.get("semi", 20.0), soft_edges=cfg.get("soft", True), crop_bf_mask=cfg.get("crop", False),
         bf_mask_padding_px=cfg.get("pad", 1), verbose=False, device="cpu", rng=0)
     return dp, np.asarray(stack, dtype=np.float64), mask
@@ -251,11 +255,23 @@ def _submask(dp, keep):
     return m
 
 
+def _as_kind(v, kind):
+    """The same number as another value kind (python int / numpy scalar): exact zeros must not be treated as 'not given'."""
+    import numpy as np
+
+    return {"int": int, "np64": np.float64, "np32": np.float32}.get(kind, lambda x: x)(v)
+
+
 def _recon(dp, cfg, sub=None, batch=None, kernel=None, u=None):
     o = cfg.get("opts", {})
+    kw = {}
+    if "built_rot" in cfg:     # object built with another rotation: the requested one is passed as a one-off override
+        kw["override_rotation_angle"] = _as_kind(cfg.get("rot", 0.0), cfg.get("rot_kind"))
+    if "built_abers" in cfg:   # requested coefficients override the stored ones key by key (canonical keys)
+        kw["override_aberration_coefs"] = dict(cfg.get("abers", {}))
     dp.reconstruct(bf_mask=_submask(dp, sub), upsampling_factor=u if u is not None else cfg.get("u"), max_batch_size=batch,
                    deconvolution_kernel=kernel or cfg.get("kernel", "ssb"), q_highpass=o.get("hp"), q_lowpass=o.get("lp"),
-                   parallax_flip_phase=o.get("flip", True), verbose=False)
+                   parallax_flip_phase=o.get("flip", True), verbose=False, **kw)
     return dp.corrected_stack.detach().clone().double().numpy()
 
 
@@ -420,7 +436,7 @@ def rt_parallax(cfg):
     pix = np.argwhere(mask).tolist()
     rows = list(range(len(pix))) if sub is None else list(sub)
     Wm, (KX, KY, lam) = aperture_weight(cfg, tuple(mask.shape), _orig_mask_of_rows(mask, rows))
-    dx, dy = _grad_chi_over_2pi(cfg.get("abers", {}), KX, KY, lam)
+    dx, dy = _grad_chi_over_2pi({**cfg.get("built_abers", {}), **cfg.get("abers", {})}, KX, KY, lam)
     ss = cfg.get("scan_sampling", [0.5, 0.5])
     Ny, Nx = cfg["scan"]
     acc = np.zeros((u * Ny, u * Nx))
@@ -630,7 +646,8 @@ def fam_getter():
     for initial in ({}, {"C10": 100.0, "C12": 20.0, "phi12": 0.1}):
         for optimized in ({}, {"C10": 120.0, "C21": 300.0}):
             for override in (None, {}, {"C10": 600.0}, {"C30": 1.0e4, "C12": 5.0}):
-                for rots in ((None, None, None), (0.1, None, None), (0.1, 0.2, None), (None, 0.2, 0.3), (0.1, None, 0.3)):
+                for rots in ((None, None, None), (0.1, None, None), (0.1, 0.2, None), (None, 0.2, 0.3), (0.1, None, 0.3),
+                             (0.35, None, 0.0), (0.35, 0.0, None), (0.1, 0.2, 0), (0.0, None, None), (0.35, 0.0, 0.0)):   # exact zeros outrank non-zero lower priorities
                     yield dict(initial=initial, optimized=optimized, override=override, rot0=rots[0], rot1=rots[1], rot_override=rots[2])
 
 
@@ -890,6 +907,20 @@ def fam_parallax(tier="quick", seed=0):
                     rot = 0.0 if ai in (0, 1, 2, 3) and (k % 2 == 0) else [0.0, 0.35, -0.9][k % 3]
                     yield dict(g, u=u, sub=sorted(set(sub)) if sub else None, abers=ab, rot=rot, seed=seed + k, batch=[None, 2, 1][k % 3],
                                kernel=["prlx", "parallax", "tcbf", "tilt-corrected-bright-field"][k % 4])
+        # presence patterns of the coefficient keys (a missing angle means angle 0, a missing magnitude means 0) and exact zeros
+        for ab in ({"C12": 45.0}, {"astigmatism": 30.0}, {"C10": 80.0, "C12": 40.0}, {"phi12": 0.4}, {"C12": 0.0, "phi12": 0.3}, {"C10": 0.0}, {"defocus": 0.0, "C12": 35.0}):
+            k += 1
+            sub = _proper_sub(n, k % 3) if k % 2 else None
+            yield dict(g, u=1 + k % 2, sub=sorted(set(sub)) if sub else None, abers=ab, rot=[0.0, 0.35][k % 2], seed=seed + k, batch=[None, 2][k % 2], kernel="prlx")
+        # requested hyper-parameters given as one-off overrides of OTHER stored values, incl. exact zeros in several value kinds
+        stored = {"C10": 150.0, "C12": 40.0, "phi12": 0.2}
+        for built_rot, rot, kind, ab in ((0.35, 0.0, None, {"C10": 90.0}), (0.35, 0.0, "int", {"C10": 90.0}), (-0.6, 0.0, "np64", {"C12": 50.0}), (0.35, 0.0, "np32", {}),
+                                         (0.0, 0.35, None, {"C10": 90.0}), (0.2, 0.2, None, {"C10": 0.0, "C12": 0.0}), (0.0, 0.0, None, {"C12": 0.0}),
+                                         (0.3, -0.3, None, {"phi12": 0.0})):
+            k += 1
+            sub = _proper_sub(n, k % 3) if k % 2 else None
+            yield dict(g, u=1 + k % 2, sub=sorted(set(sub)) if sub else None, built_abers=stored, abers=ab, built_rot=built_rot, rot=rot, rot_kind=kind,
+                       seed=seed + k, batch=[None, 2][k % 2], kernel="prlx")
 
 
 def fam_bf_context(tier="quick", seed=0):
@@ -1594,8 +1625,28 @@ C_RECONSTRUCT = Contract(
                                           f"{DP}:DirectPtychography._return_upsampled_qgrid", "quantem.core.utils.rng:RNGMixin.rng"],
     max_paths=6000)
 
+class ForeignContract:
+    """A contract of another property module, re-verified in THIS check with that module's own registry (its models / value domain)."""
+
+    def __init__(self, mod, con):
+        self.__dict__.update(con.__dict__)
+        self._mod, self._con = mod, con
+
+    def verify(self, reg, *a, **kw):
+        return self._con.verify(self._mod.make_registry(), *a, **kw)
+
+    def __getattr__(self, k):
+        return getattr(self.__dict__["_con"], k)
+
+
+# "translating each image by the geometric shift given by the aberration-surface gradient at its detector pixel": the gradient functions the
+# parallax kernel uses are verified against the derivative of the REAL aberration_surface by the contracts of contracts/C12.py (all presence
+# patterns of the coefficient keys, e.g. C12 without phi12); they are re-verified here, together with the sibling entry point
+# _return_lateral_shifts (shift = wavelength * grad chi / 2 pi at the pixel).  Inside reconstruct's typing they stay interpreted inline.
+C12_GRADIENTS = [ForeignContract(C12, c) for c in (C12.C_POLGRAD, C12.C_CARTGRAD, C12.C_SHIFTS)]
+
 # SimpleBatcher.__iter__ / __len__: the contracts of contracts/C09.py, re-verified in this check because reconstruct relies on the partition
-CONTRACTS = [C_KERNELNAME, C_PREPROCESS, C_BFCONTEXT, C_GAMMA, C_KERNEL, C_CURAB, C_CURROT, C_CROP, C_RECONSTRUCT, C09.C_ITER, C09.C_LEN]
+CONTRACTS = [C_KERNELNAME, C_PREPROCESS, C_BFCONTEXT, C_GAMMA, C_KERNEL, C_CURAB, C_CURROT, C_CROP, C_RECONSTRUCT, C09.C_ITER, C09.C_LEN] + C12_GRADIENTS
 
 
 # ------------------------------------------------------------------------------------------------
